@@ -7,115 +7,8 @@
 (* initial state; the machine runs to its end and the visit / load         *)
 (* sequences are emitted for replay against traversal.WalkAdv.             *)
 (***************************************************************************)
-EXTENDS Traversal, Json
+EXTENDS Traversal, TraversalGenBase, Json
 
-CONSTANTS Mode, SelDepth, Shard, NShards, Sample
-
-a == <<97>>  b == <<98>>  c == <<99>>  k0 == <<48>>  k1 == <<49>>
-I(n) == Scalar("int", IF n = 0 THEN <<0>> ELSE <<0, n>>)
-S(bytes) == Scalar("string", bytes)
-B(bytes) == Scalar("bytes", bytes)
-L(blk) == Scalar("link", <<blk>>)
-
-\* ---- graphs: sequences of blocks, block 1 is the root
-G1 == << MapV(<<a, b, c>>, << I(1), ListV(<<I(10), S(<<104, 101, 108, 108, 111>>), ListV(<<I(7)>>)>>),
-                             MapV(<<a, k0>>, <<B(<<1, 2, 3, 4>>), NullV>>) >>) >>
-G2 == << MapV(<<a, b, c>>, << L(2), L(2), ListV(<<L(3), I(5)>>) >>),
-         MapV(<<a, b>>, << S(<<115, 116, 114>>), L(3) >>),
-         S(<<108, 101, 97, 102>>) >>
-G3 == << ListV(<< MapV(<<a>>, <<I(1)>>), ListV(<<>>), MapV(<<>>, <<>>), S(<<115>>), L(2) >>),
-         ListV(<<I(1), I(2), I(3)>>) >>
-G4 == << MapV(<<a>>, << MapV(<<a>>, << MapV(<<a>>, <<MapV(<<a, b>>, <<I(7), I(8)>>)>>) >>) >>) >>
-G5 == << MapV(<<a, b>>, <<L(2), I(0)>>), MapV(<<a, b>>, <<L(3), I(1)>>), MapV(<<a, b>>, <<L(4), I(2)>>),
-         MapV(<<b>>, <<I(3)>>) >>
-G6 == << MapV(<<k1, k0, a>>, << I(1), ListV(<<I(2), I(3)>>), ListV(<<L(2), L(2)>>) >>), ListV(<<S(<<120, 121, 122>>)>>) >>
-G7 == << S(<<114, 111, 111, 116>>) >>
-\* the same link deep first (beyond a recursion limit) and shallow later
-G8 == << MapV(<<a, b>>, << MapV(<<a>>, <<MapV(<<a>>, <<L(2)>>)>>), L(2) >>), MapV(<<a>>, <<S(<<120>>)>>) >>
-\* the empty string as a map key, also beyond a link
-e == <<>>
-G9 == << MapV(<<e, b>>, << MapV(<<a, e>>, <<I(1), ListV(<<I(2)>>)>>), L(2) >>), MapV(<<e, a>>, <<MapV(<<e>>, <<I(3)>>), I(4)>>) >>
-Graphs == <<G1, G2, G3, G4, G5, G6, G7, G8, G9>>
-
-\* ---- selectors
-Leaves == {SMatch, SSubset(1, 3), SSubset(-3, -1)}
-KeysU == {a, b, k0, <<>>}
-Small(X) == {x \in X : x.t \in {"match", "edge"} \/ (x.t = "all" /\ x.ss[1].t = "match")}
-
-Layer(X) ==
-  {SAll(x) : x \in X}
-  \cup {SIndex(i, x) : i \in {0, 1}, x \in X}
-  \cup {SRange(p[1], p[2], x) : p \in {<<0, 2>>, <<1, 3>>}, x \in X}
-  \cup {SFields(<<k>>, <<x>>) : k \in KeysU, x \in X}
-  \cup {SFields(p, <<x, y>>) : p \in {<<b, a>>, <<a, k0>>}, x \in X, y \in Small(X)}
-  \cup {SUnion(<<x, y>>) : x \in X, y \in Small(X) \cup {z \in X : z.t \in {"fields", "index"} /\ z.ss[1].t \in {"match", "edge"}}}
-
-RECURSIVE Open(_)
-Open(d) == IF d = 0 THEN Leaves \cup {SEdge} ELSE Open(d - 1) \cup Layer(Open(d - 1))
-
-Limits == {1, 2, -1}
-Stops(g) == {-1} \cup (IF Len(g) >= 2 THEN {2} ELSE {})
-
-RECURSIVE Closed(_, _)
-Closed(d, g) ==
-  IF d = 0 THEN Leaves
-  ELSE Closed(d - 1, g) \cup Layer(Closed(d - 1, g))
-       \cup {SRec(l, st, q) : l \in Limits, st \in Stops(g), q \in {x \in Open(d - 1) : CountEdges(x) > 0}}
-
-NoCfg == [nb |-> -1, lb |-> -1, start |-> <<>>, once |-> FALSE, skip |-> {}]
-
-\* cheap structural hash for sharding
-RECURSIVE SelWeight(_)
-SelWeight(s) == Len(s.t) + Len(s.a) * 3 + Len(s.ks) * 5 +
-                (LET F[i \in 0..Len(s.ss)] == IF i = 0 THEN 0 ELSE F[i - 1] * 7 + SelWeight(s.ss[i]) IN F[Len(s.ss)])
-
-\* C07 / C14: every selector that compiles, every graph, no controls
-\* (sharded by graph, so that each shard builds the selector set once)
-MyGraphs == {gi \in DOMAIN Graphs : gi % NShards = Shard}
-CasesPlain ==
-  UNION {{[g |-> Graphs[gi], sel |-> s, cfg |-> NoCfg] :
-            s \in {x \in Closed(SelDepth, Graphs[gi]) : Compiles(x, FALSE)}}
-         : gi \in MyGraphs}
-
-\* C15: a set of walk-everything / recursive / field selectors x every control, one at a time
-CtlSels(g) ==
-  { SRec(-1, -1, SAll(SEdge)), SRec(2, -1, SAll(SEdge)), SRec(3, -1, SUnion(<<SMatch, SAll(SEdge)>>)),
-    SAll(SAll(SMatch)), SFields(<<b, a>>, <<SAll(SMatch), SRec(-1, -1, SAll(SEdge))>>),
-    SRec(-1, -1, SUnion(<<SFields(<<a>>, <<SEdge>>), SIndex(0, SEdge)>>)) }
-    \cup (IF Len(g) >= 2 THEN {SRec(-1, 2, SAll(SEdge))} ELSE {})
-
-RECURSIVE PathsOf(_, _, _)      \* all paths of the graph up to depth d (links followed)
-PathsOf(g, n, d) ==
-  LET m == IF n.k = "link" THEN g[n.a[1]] ELSE n IN
-  IF d = 0 \/ m.k \notin RecursiveKinds THEN {<<>>}
-  ELSE {<<>>} \cup UNION {{<<Children(m)[i][1]>> \o p : p \in PathsOf(g, Children(m)[i][2], d - 1)} : i \in DOMAIN Children(m)}
-
-BlockSets(g) == {{}} \cup {{x} : x \in 2..Len(g)} \cup {{x, y} : x, y \in 2..Len(g)}
-
-Cfgs(g) ==
-  {[NoCfg EXCEPT !.nb = n] : n \in 0..10}
-  \cup {[NoCfg EXCEPT !.lb = n] : n \in 0..4}
-  \cup {[NoCfg EXCEPT !.start = p] : p \in PathsOf(g, g[1], 3) \ {<<>>}}
-  \cup {[NoCfg EXCEPT !.once = TRUE]}
-  \cup {[NoCfg EXCEPT !.skip = bs] : bs \in BlockSets(g) \ {{}}}
-  \cup {NoCfg}
-
-CasesCtl ==
-  UNION {{[g |-> Graphs[gi], sel |-> s, cfg |-> cf] : s \in CtlSels(Graphs[gi]), cf \in Cfgs(Graphs[gi])}
-         : gi \in MyGraphs}
-
-\* subset matchers with every sign combination of the bounds, on their own and under recursion
-SubsetSels == {x \in {SSubset(f, t) : f \in {-9, -3, -1, 0, 1, 2, 5, 9}, t \in {-9, -4, -1, 0, 1, 3, 5, 9}} : Compiles(x, FALSE)}
-CasesSubset ==
-  UNION {{[g |-> Graphs[gi], sel |-> s, cfg |-> NoCfg] :
-            s \in UNION {{x, SAll(SAll(x)), SRec(-1, -1, SUnion(<<x, SAll(SEdge)>>))} : x \in SubsetSels}}
-         : gi \in MyGraphs}
-
-\* depth 3: one more layer over a hashed sample of the depth-2 selectors
-CasesPlain3 ==
-  UNION {{[g |-> Graphs[gi], sel |-> s, cfg |-> NoCfg] :
-            s \in {x \in Layer({y \in Closed(2, Graphs[gi]) : SelWeight(y) % 23 = Sample}) : Compiles(x, FALSE)}}
-         : gi \in MyGraphs}
 
 GenCases == CASE Mode = "plain" -> CasesPlain [] Mode = "ctl" -> CasesCtl [] Mode = "subset" -> CasesSubset
               [] Mode = "plain3" -> CasesPlain3
